@@ -194,15 +194,16 @@ def _random_list(rng, k):
             a = rng.choice([y0, h(0, 2 * int(H)) / 2 + y0]); a = min(a, y1 - 0.5)
             b = rng.choice([y1, a + 0.5 + rng.randint(0, max(0, int(2 * (y1 - a - 0.5)))) / 2])
             rects.append((x1, a, x1 + d, b) if side == "E" else (x0 - d, a, x0, b))
-    kind = rng.choice(["valid", "valid", "gap", "overhang", "overlap", "repeat", "junk"])
+    kind = rng.choice(["valid", "valid", "gap", "overhang", "overlap", "repeat", "junk", "small_gap", "small_overhang"])
     if kind != "valid" and k > 1:
         i = rng.randrange(1, k)
         a0, b0, a1, b1 = rects[i]
-        if kind == "gap":
-            dx, dy = (0, 0.5) if b0 >= y1 else (0, -0.5) if b1 <= y0 else (0.5, 0) if a0 >= x1 else (-0.5, 0)
+        g = 0.5 if kind in ("gap", "overhang") else 2.0 ** -7         # a small miss is far above the tolerance (1e-6) but tiny next to far coordinates
+        if kind in ("gap", "small_gap"):
+            dx, dy = (0, g) if b0 >= y1 else (0, -g) if b1 <= y0 else (g, 0) if a0 >= x1 else (-g, 0)
             rects[i] = (a0 + dx, b0 + dy, a1 + dx, b1 + dy)
-        elif kind == "overhang":
-            rects[i] = (a0 - 0.5, b0, a1, b1) if (b0 >= y1 or b1 <= y0) else (a0, b0 - 0.5, a1, b1)
+        elif kind in ("overhang", "small_overhang"):
+            rects[i] = (a0 - g, b0, a1, b1) if (b0 >= y1 or b1 <= y0) else (a0, b0 - g, a1, b1)
         elif kind == "overlap":
             dx, dy = (0, -0.5) if b0 >= y1 else (0, 0.5) if b1 <= y0 else (-0.5, 0) if a0 >= x1 else (0.5, 0)
             rects[i] = (a0 + dx, b0 + dy, a1 + dx, b1 + dy)
@@ -233,6 +234,10 @@ def create_stog_larger_lists(chunk, replay=None):
             k = rng.randint(4, 8)
             kind, rects = _random_list(rng, k)
         values = {"E": 1e-6, "EA": 1e-9}
+        far = (replay or {}).get("far", None)
+        if far is None:
+            far = rng.choice([0.0, 0.0, 0.0, 2.0 ** 20, 2.0 ** 23]) if not replay else 0.0     # origins far from zero (added after seed C06-7)
+        rects = [(a0 + far, b0 + far, a1 + far, b1 + far) for (a0, b0, a1, b1) in rects]
         for i, (a0, b0, a1, b1) in enumerate(rects):
             values.update({f"r{i}x": (a0 + a1) / 2, f"r{i}y": (b0 + b1) / 2, f"r{i}w": a1 - a0, f"r{i}h": b1 - b0})
         mv = bool(replay.get("moved")) if replay else (rng.random() < 0.4)
@@ -246,8 +251,30 @@ def create_stog_larger_lists(chunk, replay=None):
         evals += 1
         kinds[kind] = kinds.get(kind, 0) + 1
         recognised += "create_stog.first_is_a_valid_trunk" in cs.passed
+        # the same list through the module-level entry points (added after seed C06-8: Module.create_stog worked on a sorted copy)
+        try:
+            from frame.netlist.module import Module
+            Rectangle.undefine_epsilon()
+            Rectangle.set_epsilon(1e-6, 1e-9)
+            mrects = [Rectangle(center=Point((a0 + a1) / 2, (b0 + b1) / 2), shape=Shape(a1 - a0, b1 - b0)) for (a0, b0, a1, b1) in rects]
+            expect = "create_stog.first_is_a_valid_trunk" in cs.passed
+            mod = Module("M", area=1.0)
+            for r in mrects:
+                mod.add_rectangle(r)
+            got = mod.create_stog()
+            if got != expect:
+                cs.failed.append("module.create_stog_agrees_with_the_recognition_of_its_rectangles")
+            elif got and not (mod.has_stog and mod.rectangles[0].location == LOC.TRUNK and
+                              all(x.location in SIDES for x in mod.rectangles[1:]) and sorted(map(id, mod.rectangles)) == sorted(map(id, mrects))):
+                cs.failed.append("module.trunk_listed_first_and_has_stog_when_recognised")
+            elif not got and (mod.has_stog or any(x.location != LOC.NO_POLYGON for x in mod.rectangles)):
+                cs.failed.append("module.no_roles_and_no_stog_when_not_recognised")
+        except Exception as e:  # noqa
+            cs.failed.append(f"module.entry_points_do_not_fail ({type(e).__name__}: {e})")
+        finally:
+            Rectangle.undefine_epsilon()
         for cl in cs.failed:
-            failures.append(dict(clause=cl, k=k, rects=[list(r) for r in rects], kind=kind, moved=mv,
+            failures.append(dict(clause=cl, k=k, rects=[list((r[0] - far, r[1] - far, r[2] - far, r[3] - far)) for r in rects], far=far, kind=kind, moved=mv,
                                  shift={str(i): [values.get(f"mv{i}x", 0.0), values.get(f"mv{i}y", 0.0)] for i in range(k)} if mv else {}))
         if not samples:
             samples.append(dict(k=k, kind=kind, rects=[list(r) for r in rects]))
